@@ -15,7 +15,12 @@ func (*SkipCopy) Matches(ctx *MethodContext, source, target *xtype.Type) bool {
 
 // Build creates conversion source code for the given source and target type.
 func (*SkipCopy) Build(_ Generator, _ *MethodContext, sourceID *xtype.JenID, _, _ *xtype.Type, _ ErrorPath) ([]jen.Code, *xtype.JenID, *Error) {
-	return nil, sourceID, nil
+	if sourceID.Local {
+		return nil, sourceID, nil
+	}
+	// The value isn't copied, therefore it may not be treated like a variable: taking
+	// the address of e.g. source.Items[i] would leak a pointer into the source.
+	return nil, xtype.OtherID(sourceID.Code), nil
 }
 
 func (*SkipCopy) Assign(_ Generator, _ *MethodContext, assignTo *AssignTo, sourceID *xtype.JenID, _, _ *xtype.Type, _ ErrorPath) ([]jen.Code, *Error) {
